@@ -1,10 +1,10 @@
 """C13 -- string comparison helpers equal parse-then-compare and blame the right side."""
 from .. import sym
 from ..norm import n, P, C, V, match, find_all
-from . import cmpmodel
+from . import cmpmodel, hexcodec
 
 ID = "C13"
-CONFIGS = {"quick": ["K0"], "thorough": ["K0", "K15"]}
+CONFIGS = {"quick": ["K0", "K3", "K4", "K5"], "thorough": ["K0", "K1", "K3", "K4", "K5", "K15"]}
 META = {
     "explanation": (
         "Static analysis (MIR paths + resolved callees).  compare_with is decided as a decision table: the first "
@@ -24,6 +24,12 @@ PARSE = "core::str::<impl str>::parse"
 
 def run(ctx, FS):
     for key, F in FS.items():
+        # case- and prefix-insensitivity of the operands is the hex decoder's: 'a'-'f' and 'A'-'F' decode to the same nibbles in every
+        # table configuration (tables by value, decoders evaluated on the classes of the byte domain)
+        r2 = "R-13.2"
+        ctx.rule(r2, "hex digits decode case-insensitively in every decode-table configuration (tables equal the reference by value; decode_1/decode_rev_1 evaluated on byte classes)")
+        hexcodec.table_rules(ctx, r2, F)
+        hexcodec.decoders(ctx, r2, F)
         if "easy-functions" not in F.features:
             continue
         r = "R-13.1"
